@@ -78,10 +78,10 @@ Definition ops_bound (k maxkey : N) : N := k * (SLOT + maxkey) + k * IV.
    >= 4 (< 2n), by `reserve`-style growth (clone_from's extend) max(2 * cap, required) < 2n *)
 Definition vcap (n : N) : N := N.max 4 (2 * n).
 Definition STACK0 : N := 64.        (* UnfinishedNodes::new: Vec::with_capacity(64) *)
-Definition ALLOWANCE : N := 1024.   (* fixed: hook counters Arc<[AtomicU64; 4]> (48 bytes) and slop *)
+Definition ALLOWANCE : N := 65536.  (* fixed slack (64 KiB): hook counters, and room for harmless changes of initial capacities *)
 Definition INP0 : N := 16.          (* StreamWithState::new: inp = Vec::with_capacity(16) *)
 Definition SLOT_INPUT0 : N := 64.   (* Slot::new: input = Vec::with_capacity(64) *)
-Definition ALLOWANCE_S : N := 256.  (* fixed allowance for streams and set operations *)
+Definition ALLOWANCE_S : N := 4096. (* fixed slack for streams and set operations (initial capacities may change harmlessly) *)
 
 Definition mem_bound_bytes_builder (rows cols maxfan maxkey : N) : N :=
   rows * cols * CELL                      (* the table, allocated once *)
